@@ -261,7 +261,15 @@ func cmdCheck(argv []string) int {
 		fmt.Fprintln(os.Stderr, "cannot load repository:", err)
 		return 1 // no VIOLATION line: a tree that does not compile is outside the checks' contract
 	}
+	{
+		var all []*Contract
+		for _, ct := range ld.Specs.Contracts {
+			all = append(all, ct)
+		}
+		ld.Specs.Errors = append(ld.Specs.Errors, validatePatterns(all, ld.Fns)...)
+	}
 	if len(ld.Specs.Errors) > 0 {
+		sort.Strings(ld.Specs.Errors)
 		for _, e := range ld.Specs.Errors {
 			fmt.Fprintln(os.Stderr, "contract error:", e)
 		}
@@ -700,6 +708,7 @@ func writeEvidence(id, tier string, seed int, pc *PropCfg, ld *Loaded, ex *Exec,
 		"paths_explored":            ex.stateN + 1,
 		"path_cap_hit":              ex.pathCap,
 		"unsupported_constructs":    unsup,
+		"untriggered_clauses":       untriggered(ld, ex, id),
 		"bounded":                   boundedResults,
 		"dropped_by_translation":    []string{"goroutines (go statements are events; no interleaving)", "channel contents (receives yield arbitrary values)", "termination (partial correctness only)", "map iteration order, time, randomness (nondeterministic values)", "append aliasing (append always allocates a fresh backing array)"},
 		"contract_files":            relFiles(ld.Specs.Files),
@@ -798,4 +807,25 @@ func cmdDump(argv []string) {
 // replayOnCode tries to reproduce a counterexample on the compiled code; returns the VIOLATION suffix.
 func replayOnCode(id string, g *nameGroup, path string) string {
 	return replayDispatch(id, g, path)
+}
+
+// untriggered lists the precede/respond clauses serving property id whose triggering event occurred on no explored
+// path of their function (nothing was decided by them on this tree); `never` clauses are expected to stay untriggered.
+func untriggered(ld *Loaded, ex *Exec, id string) []string {
+	out := []string{}
+	for _, ct := range ld.Specs.Contracts {
+		if !contractServes(ct, id) {
+			continue
+		}
+		for _, tc := range ct.Temporal {
+			if tc.Kind == "never" || (len(tc.Props) > 0 && !hasProp(tc.Props, id)) {
+				continue
+			}
+			if ex.TemporalHits[tc] == 0 {
+				out = append(out, fmt.Sprintf("%s %s [%s] A: %s", ct.Key, tc.Kind, tc.Label, tc.A))
+			}
+		}
+	}
+	sort.Strings(out)
+	return out
 }
